@@ -3,7 +3,7 @@
    name and value are reported without the surrounding white space (blanks and folds), values are tokens or
    complete quoted strings (escapes honoured), empty and missing values are allowed; verdict and offset say what
    ended the item. *)
-From Sipsp Require Import Driver Harness RunLemmas Ext ExtLeaf ZSlice HdrSpec UIntSpec FLineSpec TokSpec.
+From Sipsp Require Import Driver Harness RunLemmas Ext ExtLeaf ZSlice HdrSpec UIntSpec FLineSpec TokSpec FLineConv TrimSpec.
 From Coq Require Import ZifyN ZifyNat ZifyBool.
 From RecordUpdate Require Import RecordUpdate.
 
@@ -262,6 +262,37 @@ Section Item.
     rewrite E. cbn [after]. f_equal.
   Qed.
 
+  (* white space, then a token byte, with POptTokSpTermF: the item is complete; the offset of the last white-space byte is returned *)
+  Lemma wsrun_last w : wsrun w -> exists w' b, w = w' ++ [b] /\ is_ws b = true.
+  Proof.
+    intros [(c0 & w0 & -> & Hc0) Hsk]. specialize (Hsk (97 : byte) [] eq_refl).
+    match type of Hsk with skipLWS ?I ?R = _ => pose proof (skipLWS_at_skipped_ws I R 0) as X end. unfold skipLWS in Hsk. rewrite Hsk in X.
+    destruct (exists_last (l := c0 :: w0) ltac:(discriminate)) as (w' & b & E). exists w', b. split; [exact E|].
+    specialize (X (length w') ltac:(rewrite E, app_length; cbn [length]; lia)). destruct X as (c & Hc & Hw).
+    rewrite E, <- app_assoc in Hc. rewrite nth_error_app2 in Hc by lia. rewrite Nat.sub_diag in Hc. cbn in Hc. injection Hc as <-. exact Hw.
+  Qed.
+  Definition close_sp (s : tokparam) (i : N) : tokparam :=
+    match tp_state s with
+    | PName => mktokparam (ext (tp_all s) i) (ext (tp_name s) i) (tp_val s) PFIN
+    | PVal => mktokparam (ext (tp_all s) i) (tp_name s) (ext (tp_val s) i) PFIN
+    | _ => s <| tp_state := PFIN |>
+    end.
+  Lemma fol_spterm pre w c r i s : wsrun w -> plain c -> tf_spterm (tp_decode flags) = true -> closable s i -> tp_state s <> PFVal ->
+    run it pre (w ++ c :: r) i 0 s = Done (i + nnat (length w) - 1) EOk (close_sp s i).
+  Proof.
+    intros Hw Hc Hsp Hs Hnv. pose proof Hc as (C1 & C2 & C3 & C4 & C5 & C6).
+    rewrite (run_gap pre w c r i s (or_intror Hw) C1 (or_introl Hs)), run_after.
+    destruct (wsrun_last w Hw) as (w' & b & Ew & Hb).
+    assert (Hne : w <> []) by (rewrite Ew; destruct w'; discriminate).
+    assert (Hg : gapst' w s i = gapst s i) by (destruct w; [congruence|reflexivity]). rewrite Hg.
+    assert (Hprev : zprev (rev w ++ pre) = Some b) by (rewrite Ew, rev_app_distr; reflexivity).
+    assert (E : it (rev w ++ pre) (c :: r) (i + nnat (length w)) (gapst s i) = Ret (i + nnat (length w) - 1) EOk (close_sp s i)).
+    { unfold it, tp_iter, gapst, close_sp. cbv zeta. destruct Hs as [Ha Hs]. destruct s as [al nm vl st]. cbn [tp_state tp_all tp_name tp_val] in *.
+      destruct st; try contradiction; try congruence; cbn [tp_state]; unfold tp_step, tp_sFEq, tp_sFSep; rewrite C1, ?C2;
+        fold (is_term_c flags c); rewrite C4, C5, C6; cbn [negb]; rewrite Hsp; unfold tp_spterm_ret; rewrite Hprev, Hb; reflexivity. }
+    rewrite E. reflexivity.
+  Qed.
+
   (* ---- segments: X is read from state s at offset i, leaving state s' ------------------------------------------------------------------------ *)
   Definition seg (X : list byte) (i : N) (s s' : tokparam) : Prop :=
     forall pre y, run it pre (X ++ y) i 0 s = run it (rev X ++ pre) y (i + nnat (length X)) 0 s'.
@@ -480,6 +511,14 @@ Section Item.
       = Done (e + nnat (length sp) + 2) EEOH (exp_item k a v EEoi 0 PFIN).
     Proof.
       intros Hsp Hx. rewrite item_run, (fol_eoh _ sp x tail e _ Hsp Hx (vstate_closable k a v Hka)). f_equal. apply close_eoi_exp. exact Hka.
+    Qed.
+    (* followed by white space and the first byte of something else, POptTokSpTermF (a value-less or token-valued or quoted item): ok *)
+    Theorem item_spterm w c r : wsrun w -> plain c -> tf_spterm (tp_decode flags) = true -> (forall w1, v <> VEmpty w1) ->
+      parse_tokparam flags (junk ++ item ++ w ++ c :: r) k tokparam0
+      = Done (e + nnat (length w) - 1) EOk (close_sp (vstate k a v) e).
+    Proof.
+      intros Hw Hc Hsp Hne. rewrite item_run. apply fol_spterm; try assumption; [exact (vstate_closable k a v Hka)|].
+      destruct v; cbn; try discriminate. exfalso. exact (Hne _ eq_refl).
     Qed.
   End Thm.
 End Item.
